@@ -141,18 +141,19 @@ PROPS["C03"] = {
 
 MUQ = "NsyncVerif.MuQ."
 PROPS["C02"] = {
-    "imports": ["NsyncVerif.Props.C02", "NsyncVerif.Props.C02Progress"],
+    "imports": ["NsyncVerif.Props.C02", "NsyncVerif.Props.C02Progress", "NsyncVerif.Props.C02Fair"],
     "theorems": [MUQ + t for t in ["C02_try_wait_free", "C02_inv_spin", "C02_inv_spin_queue", "C02_inv_lock", "C02_inv_queue", "C02_inv_hint",
                  "C02_responsible", "C02_woken_not_lost", "C02_no_stuck_state", "C02_solo_progress_partial",
                  "C02_solo_progress", "C02_solo_acquire", "C02_solo_release", "C02_thread_enabled", "C02_awake_responsible", "C02_leads_to_wake",
-                 "C02_can_always_complete", "C02_stage_monotone"]],
+                 "C02_can_always_complete", "C02_stage_monotone",
+                 "C02_fair_termination", "C02_fair_quiescence", "C02_fair_return", "C02_fair_wake", "C02_fair_needs_release", "C02_fair_needs_rc", "C02_fair_needs_arrivals"]],
     "layers": ["muq", "mux"],
     "tie": ["NsyncVerif.Proofs.TieConsts"],
     "oracles": {"stuck", "steplimit", "try-blocked", "panic", "crash"},
-    "plan": {"quick": [("core", 200, 8), ("muwait", 60, 6), ("cv", 60, 6), ("cv_rsignal", 40, 6)],
-             "thorough": [("core", 2000, 16), ("muwait", 600, 12), ("cv", 600, 12), ("cv_rsignal", 400, 12), ("mixed", 600, 12)]},
-    "level_text": "Kernel-checked theorems over the MuQ model (mu.c lock/rlock/trylock/rtrylock/unlock/runlock/lock_slow/unlock_slow statement by statement: word with interpreted hint bits, waiter queue, per-waiter waiting flag and semaphore, 31 program points, one step per atomic operation; any number of threads; counting and binary semaphores): try-locks are wait-free (at most 3 atomic operations, never a semaphore wait); inductive invariants for spinlock, lock bits, queue and hint bits; every queued sleeper has somebody responsible for waking it (a share holder, a woken thread in flight, or an unlocker mid-scan: C02_responsible); a woken thread's post is never lost (C02_woken_not_lost); and there is NO reachable state in which every thread is idle-holding-nothing or asleep unless nobody is asleep (C02_no_stuck_state); obstruction-freedom with explicit bounds: a thread running alone with the spinlock free completes its acquisition attempt (returns or goes to sleep) within 14 + 3·M own steps and its release within a bound linear in the queue length (C02_solo_progress, C02_solo_acquire, C02_solo_release); every awake thread inside a call has an enabled step (C02_thread_enabled); the leads-to argument in existential-schedule form with an explicit lexicographic ranking: from every reachable state with t asleep there is a finite schedule without barging and without new acquisitions after which t's semaphore has been posted, and one after which every thread is idle holding nothing (C02_leads_to_wake, C02_can_always_complete, C02_stage_monotone). Tied to the code by lockstep replay of harness executions of the real mu.c through the MuQ acceptor (every event: op kind, order, location, expected/new/observed values) plus the global-progress oracle on the real executions, which also runs the full alphabet (mu_wait, cv, wait_n).",
-    "level_note": "Scope of the theorems is the property's own quantifier (core operations on one mutex; a mutex used with mu_wait/cv/wait_n/debug is out of MuQ's scope and covered by lockstep through MuX plus the progress oracle only). 'Eventually returns' is machine-checked as (a) unreachability of stuck states, (b) bounded solo progress and (c) the leads-to argument over a schedule that EXISTS (only the responsible chain moves, holders call unlock — the property's hypothesis); the universally quantified version over all weakly fair schedules is kept as the definition C02_fair_termination_full (with Exec, WeakFair, HoldersRelease, FiniteArrivals, FiniteRcFails defined) and is NOT proved: the route (five-component measure) is written in Props/C02Progress.lean. Two assumptions the formalisation shows to be necessary: finitely many failed CASes on the foreign remove_count word, and finite arrivals (the spinlock is test-and-set; nsync bounds barging on the lock — C14 — not on the spinlock). Waiter-pool allocation is an allocator contract.",
+    "plan": {"quick": [("core", 200, 8), ("core@ps", 200, 10), ("starve@ps", 60, 12), ("muwait", 60, 6), ("cv", 60, 6), ("cv_rsignal", 40, 6)],
+             "thorough": [("core", 2000, 16), ("core@ps", 2000, 16), ("starve@ps", 600, 20), ("muwait", 600, 12), ("cv", 600, 12), ("cv_rsignal", 400, 12), ("mixed", 600, 12)]},
+    "level_text": "Kernel-checked theorems over the MuQ model (mu.c lock/rlock/trylock/rtrylock/unlock/runlock/lock_slow/unlock_slow statement by statement: word with interpreted hint bits, waiter queue, per-waiter waiting flag and semaphore, 31 program points, one step per atomic operation; any number of threads; counting and binary semaphores): try-locks are wait-free (at most 3 atomic operations, never a semaphore wait); inductive invariants for spinlock, lock bits, queue and hint bits; every queued sleeper has somebody responsible for waking it (a share holder, a woken thread in flight, or an unlocker mid-scan: C02_responsible); a woken thread's post is never lost (C02_woken_not_lost); and there is NO reachable state in which every thread is idle-holding-nothing or asleep unless nobody is asleep (C02_no_stuck_state); obstruction-freedom with explicit bounds: a thread running alone with the spinlock free completes its acquisition attempt (returns or goes to sleep) within 14 + 3·M own steps and its release within a bound linear in the queue length (C02_solo_progress, C02_solo_acquire, C02_solo_release); every awake thread inside a call has an enabled step (C02_thread_enabled); the leads-to argument in existential-schedule form with an explicit lexicographic ranking: from every reachable state with t asleep there is a finite schedule without barging and without new acquisitions after which t's semaphore has been posted, and one after which every thread is idle holding nothing (C02_leads_to_wake, C02_can_always_complete, C02_stage_monotone); and FAIR TERMINATION itself: in every infinite execution of the model that is weakly fair, in which every holder eventually calls unlock, with finitely many arrivals and finitely many failed CASes on the foreign remove_count word, every call eventually returns — indeed the whole system eventually becomes quiescent with nobody holding anything (C02_fair_termination, C02_fair_quiescence, C02_fair_return, C02_fair_wake), and each of the three side hypotheses is necessary (explicit fair counter-executions C02_fair_needs_release, C02_fair_needs_rc, C02_fair_needs_arrivals). Tied to the code by lockstep replay of harness executions of the real mu.c through the MuQ acceptor (every event: op kind, order, location, expected/new/observed values) plus the global-progress oracle on the real executions, which also runs the full alphabet (mu_wait, cv, wait_n).",
+    "level_note": "Scope of the theorems is the property's own quantifier (core operations on one mutex; a mutex used with mu_wait/cv/wait_n/debug is out of MuQ's scope and covered by lockstep through MuX plus the progress oracle only). 'Eventually returns' is a theorem about the model's infinite executions (C02_fair_termination) under weak fairness + the property's own hypothesis (holders release) + two side hypotheses that the formalisation shows to be necessary: finitely many failed CASes on the foreign remove_count word (the acceptor admits such a failure whenever the log reports one), and finite arrivals (a thread can be overtaken between its load and its enqueue CAS by lock/unlock pairs on the fast paths for ever; nsync bounds barging once a waiter has escalated — C14 — but the statement is about arbitrary arrivals). Waiter-pool allocation is an allocator contract.",
 }
 PROPS["C14"] = {
     "imports": ["NsyncVerif.Props.C14"],
@@ -194,8 +195,8 @@ PROPS["C04"] = {
                  "C04_signal", "C04_broadcast", "C04_broadcast_unlinks_all", "C04_no_lost_wake", "C04_f3_schedule_fixed", "C04_f3_old_behaviour_rejected"]],
     "layers": ["cv", "mux"],
     "oracles": {"swallowed-wakeup", "dead-object", "stuck", "steplimit", "early-timeout", "bad-cancel", "bad-result", "panic", "crash"},
-    "plan": {"quick": [("cv", 120, 8), ("cv_raw", 60, 8), ("cv_rsignal", 60, 8), ("waitn_cv", 80, 8), ("cv_rwr", 60, 6)],
-             "thorough": [("cv", 1200, 16), ("cv_raw", 600, 16), ("cv_rsignal", 600, 16), ("waitn_cv", 800, 16), ("cv_rwr", 600, 12)]},
+    "plan": {"quick": [("cv", 120, 8), ("cv_raw", 60, 8), ("cv_rsignal", 60, 8), ("waitn_cv", 80, 8), ("cv_rwr", 60, 6), ("cv@ps", 80, 8), ("waitn_cv@ps", 60, 8)],
+             "thorough": [("cv", 1200, 16), ("cv_raw", 600, 16), ("cv_rsignal", 600, 16), ("waitn_cv", 800, 16), ("cv_rwr", 600, 12), ("cv@ps", 800, 16), ("waitn_cv@ps", 600, 16)]},
     "harness_args": ["checkplain=1"],
     "level_text": "Kernel-checked theorems over the CvFix model (cv.c — with the repair of defect F3 — and sem_wait.c statement by statement: cv word, queue, pooled waiter records with remove_count and bare nsync_waiter_s records of nsync_wait_n, private to-wake lists, transfer to the mutex queue; any number of threads; both semaphore flavours): queue/non-empty-bit invariant, spinlock exclusion, enqueue-before-release (wait is atomic w.r.t. wakers), signal unlinks the first waiter and, if it is a reader, every reader plus at most one other, broadcast unlinks every waiter enqueued before its first load, an unlinked record is woken (flag cleared and semaphore posted) or its waker is still in flight (no lost wake-up), every wait instance is unlinked at most once, by a waker xor by itself — for ALL record kinds (C04_unlink_once) —, a cv wait returns non-zero only if it unlinked itself, and for nsync_wait_n cv_dequeue reports 'still enqueued' exactly when the record was unlinked by its owner (a waker-unlinked record is reported as ready: C04_outcome). Tied to the code by lockstep replay of the cv / cv_raw / cv_rsignal / waitn_cv families (incl. cancellable waits) through the CvFix acceptor, with the swallowed-wake-up and dead-object oracles on the implementation side.",
     "level_note": "On the pinned tree C04_unlink_once / C04_outcome were false for nsync_wait_n records (defect F3, now fixed in /repo: the old Cv model with the refutation is kept in the library as Props/C04.lean, the F3 schedule is a corpus regression). Transferred waiters are handed to the mutex queue (C02). The mutex is abstract in this layer. Fair termination is a paper step.",
@@ -204,28 +205,30 @@ PROPS["C08"] = {
     "imports": ["NsyncVerif.Props.C08", "NsyncVerif.Props.C08Release"],
     "theorems": ["Note." + t for t in ["C08_flag_monotone", "C08_flag_monotone_run", "C08_notified_monotone", "C08_monotone", "C08_observed_notified", "C08_anc_ever",
                  "C08_sound", "C08_notify_post", "C08_expiry_min", "C08_expiry_min_ret", "C08_creation_path", "C08_creation_ghosts", "C08_expiry_min_full_holds",
-                 "C08_expiry_min_old_code_witness", "C08_complete_witness", "C08_complete_partial",
+                 "C08_expiry_min_old_code_witness", "C08_complete", "C08_delivery_in_progress", "C08_complete_old_code_witness", "f4_repaired", "C08_complete_partial",
                  "C08_stack_notified", "C08_unaffected_partial", "C08_ancestors_unaffected",
-                 "C08_waiters_released", "C08_no_lost_wakeup", "C08_notified_waiters_in_progress", "C08_waiting_record", "C08_complete_released",
+                 "C08_waiters_released", "C08_no_lost_wakeup", "C08_notified_waiters_in_progress", "C08_waiting_record", "C08_complete_released", "C08_complete_full_holds",
                  "C08_child_iff_parent", "C08_children_nodup", "C08_unaffected_full_holds", "C08_unaffected", "C08_siblings_unaffected", "C08_parent_and_siblings_unaffected"]],
     "layers": ["note", "mux"],
     "oracles": {"stuck", "expiry-min", "notify-post", "note-wait", "early-timeout", "panic", "crash", "dead-object"},
-    "plan": {"quick": [("note", 150, 8), ("note_f4", 10, 8)], "thorough": [("note", 1500, 16), ("note_f4", 60, 16)]},
+    "plan": {"quick": [("note", 150, 8), ("note_f4", 30, 8), ("note_f4b", 20, 8)], "thorough": [("note", 1500, 16), ("note_f4", 300, 16), ("note_f4b", 200, 16)]},
     "harness_args": ["checkplain=1"],
-    "level_text": "Kernel-checked theorems over the Note model (note.c and the wait path of nsync_note_wait statement by statement on a forest with parent/children/disconnecting/waiters, note mutexes abstract; unbounded notes, threads, depth, steps): the flag and the API-level 'notified' are one-way, every observer history is monotone, a notified note has a cause (notify called or a deadline passed on itself or an ancestor-at-some-time), notify's post-condition, ancestors are never affected, everything on a notifier's recursion stack is notified, and nsync_note_expiry returns the minimum of the creation deadlines on the creation-time path to the root for EVERY note, born notified or not (C08_expiry_min, C08_expiry_min_ret — for the code as repaired by afe43b7). Tied to the code by lockstep replay including a digest of the REAL note forest after every note API return, which the model must reproduce.",
-    "level_note": "One clause is FALSE on the current code and carried as a known finding with a Lean witness and harness replays: completeness (F4: a free of a note with children concurrent with a notification of an ancestor — C08_complete_partial holds for executions without such an adoption under a notified parent; negation proved on a concrete trace). The expiry clause was false on the pinned tree (F5, notes born notified) and is repaired in /repo (afe43b7); what the old code did is recorded by C08_expiry_min_old_code_witness and the corpus regression. The expiry clause is about CREATION-time ancestors (C08_creation_path): nsync_note_free re-parents children but never changes an expiry time. 'Ancestors and siblings are unaffected' is proved w.r.t. the CURRENT forest (C08_unaffected_full_holds, C08_siblings_unaffected; it needed the converse of the parent/children invariant, which rests on the locks and on the `disconnecting` counter). The waiter-release half of completeness is proved: unconditionally for the note itself (C08_waiters_released: once a note is notified and no activation on it is in progress, its waiter list is empty, every record registered on it has `waiting` cleared and every owner still blocked has been posted) and, for descendants, under the same hypothesis as the flags (C08_complete_released — the hypothesis excludes exactly the adoption step of the known defect F4). 'Released' is the safety form (flag cleared and V performed or owed by an activation in progress); that P then returns is the semaphore's contract (C12). Monotone clock assumed.",
+    "level_text": "Kernel-checked theorems over the Note model (note.c and the wait path of nsync_note_wait statement by statement on a forest with parent/children/disconnecting/waiters, note mutexes abstract; unbounded notes, threads, depth, steps): the flag and the API-level 'notified' are one-way, COMPLETENESS (C08_complete: once a note is notified and no activation on it is in progress, its children list is empty and every descendant is notified; with C08_complete_released: every thread waiting on them has been released), every observer history is monotone, a notified note has a cause (notify called or a deadline passed on itself or an ancestor-at-some-time), notify's post-condition, ancestors are never affected, everything on a notifier's recursion stack is notified, and nsync_note_expiry returns the minimum of the creation deadlines on the creation-time path to the root for EVERY note, born notified or not (C08_expiry_min, C08_expiry_min_ret — for the code as repaired by afe43b7). Tied to the code by lockstep replay including a digest of the REAL note forest after every note API return, which the model must reproduce.",
+    "level_note": "Every clause of the statement is now a theorem about the model of the CURRENT note.c. Three things were wrong on the pinned tree and are repaired in /repo: completeness (F4, adoption under an ancestor whose child scan was over — repaired by 0c53433: C08_complete, C08_complete_released, C08_complete_full_holds hold without any hypothesis about adoptions), the expiry clause (F5, notes born notified — afe43b7: C08_expiry_min), and the use-after-free F7 (8a33942, C09's subject). What the old code did is recorded by the …_old_code_witness theorems and by the corpus regressions. The expiry clause is about CREATION-time ancestors (C08_creation_path). 'Ancestors and siblings are unaffected' is proved w.r.t. the CURRENT forest (C08_unaffected_full_holds). 'Released' is the safety form (flag cleared and V performed or owed by an activation in progress); that P then returns is the semaphore's contract (C12). The new field children_adopted is not part of the forest digest the harness logs: a library that forgets to set it is caught by the stuck oracle, not by a REJECT. Monotone clock assumed."
 }
 PROPS["C09"] = {
     "imports": ["NsyncVerif.Props.C09"],
-    "theorems": ["Note." + t for t in ["C09_holds_iff", "C09_lock_order", "C09_no_lock_cycle", "C09_adoption", "C09_adoption_root", "C09_free_leaves_no_child",
-                 "C09_no_use_after_free_witness", "C09_no_use_after_free_partial", "C09_free_is_exclusive", "C09_no_stuck_state_witness", "C09_no_stuck_state_partial"]],
+    "theorems": ["Note." + t for t in ["C09_holds_iff", "C09_lock_order", "C09_no_lock_cycle", "C09_adoption", "C09_adoption_wakes", "C09_adoption_root", "C09_free_leaves_no_child",
+                 "C09_no_use_after_free", "C09_parent_not_stale", "C09_linked_or_locked_is_live", "C09_no_use_after_free_partial", "C09_no_use_after_free_old_code_witness",
+                 "C09_free_is_exclusive", "C09_no_stuck_state", "C09_wait_has_disconnectors", "C09_disconnecting_count", "C09_no_stuck_state_partial", "C09_no_stuck_state_old_code_witness",
+                 "f7_repaired", "f4_not_stuck"]],
     "layers": ["note", "mux"],
     "oracles": {"stuck", "dead-object", "dead-stack", "panic", "crash"},
-    "plan": {"quick": [("note", 150, 8), ("note_f4", 10, 8), ("note_f7", 10, 8)], "thorough": [("note", 1500, 16), ("note_f4", 60, 16), ("note_f7", 60, 16)]},
+    "plan": {"quick": [("note", 150, 8), ("note_f4", 30, 8), ("note_f4b", 20, 8), ("note_f7", 30, 8)], "thorough": [("note", 1500, 16), ("note_f4", 300, 16), ("note_f4b", 200, 16), ("note_f7", 300, 16)]},
     "harness_args": ["checkplain=1"],
     "extra_corpus": ["C08"],
     "level_text": "Kernel-checked theorems over the Note model: the lock discipline (a thread waiting for a note's mutex holds only mutexes of notes strictly above it in creation order: C09_lock_order, hence no cycle of lock waits: C09_no_lock_cycle), adoption (when free returns, every non-disconnecting former child has the former parent as parent and is in its children list; nothing is left behind), free is exclusive, and the argument of a call in progress is never a freed note. Tied to the code by lockstep replay with forest digests and the dead-object oracle (every atomic and plain access of the real code is checked against reclaimed notes).",
-    "level_note": "Two statements are FALSE on the current code and carried as known findings with Lean witnesses and harness replays: no-use-after-free for the PARENT of a note that two threads disconnect concurrently (F7, new: C09_no_use_after_free_partial covers the call's own argument) and no-stuck-state (F4). Deadlock freedom is proved as absence of lock-wait cycles (partial: the WAIT_FOR_NO_CHILDREN sleepers are exactly what F4 strands).",
+    "level_note": "All clauses are theorems about the model of the CURRENT note.c: no step of any thread touches a freed note (C09_no_use_after_free — it rests on invariant I1 'a note is unlinked from its parent only by the LAST thread disconnecting it', C09_parent_not_stale), there is no reachable state in which a call is blocked and nobody can move (C09_no_stuck_state — every thread sleeping in WAIT_FOR_NO_CHILDREN has disconnecting children each with a counted thread, or will be woken by an adopter: C09_wait_has_disconnectors, C09_adoption_wakes), `disconnecting` equals the number of threads counted in it (C09_disconnecting_count), lock order parent-before-child without cycles. Two statements were FALSE on the pinned tree (F7: use after free of the parent; F4: a stuck notify / free) and are repaired in /repo (8a33942, 0c53433; a third shape, F7b — the notifier's recursion unlinking a note whose nsync_note_free still held the stale parent — was found by the repair study and is closed by the same rule). The old behaviour is recorded by the …_old_code_witness theorems and the corpus regressions. Client contract: a note is freed once and not used afterwards."
 }
 PROPS["C19"] = {
     "imports": ["NsyncVerif.Props.C19Note", "NsyncVerif.Props.C19Counter"],
@@ -267,8 +270,8 @@ PROPS["C13"] = {
     "family_layers": {"refcount": ["muq", "mux"], "core": ["muq", "mux"], "waitn": ["waitn", "cv", "mux"], "waitn_rep": ["waitn", "cv", "mux"], "waitn_cv": ["waitn", "cv", "mux"],
                       "waitn_f3": ["waitn", "cv", "mux"], "cv": ["semwait", "cv", "mux"], "muc": ["semwait", "muc", "mux"], "cancel_only": ["semwait", "cv", "muc", "mux"], "corpus": ["waitn", "cv", "mux"]},
     "oracles": {"dead-object", "dead-stack", "stuck", "steplimit", "panic", "crash", "exclusion", "exclusion-ann"},
-    "plan": {"quick": [("refcount", 150, 10), ("waitn", 100, 8), ("waitn_rep", 80, 8), ("waitn_f3", 60, 8), ("cv", 80, 8), ("muc", 40, 6), ("cancel_only", 80, 8)],
-             "thorough": [("refcount", 1500, 20), ("waitn", 1000, 16), ("waitn_rep", 800, 16), ("waitn_f3", 600, 16), ("cv", 800, 16), ("muc", 400, 12), ("cancel_only", 800, 16)]},
+    "plan": {"quick": [("refcount", 150, 10), ("waitn", 100, 8), ("waitn_rep", 80, 8), ("waitn_f3", 60, 8), ("cv", 80, 8), ("muc", 40, 6), ("cancel_only", 80, 8), ("refcount@ps", 100, 10), ("waitn_rep@ps", 60, 8), ("cv@ps", 60, 8)],
+             "thorough": [("refcount", 1500, 20), ("waitn", 1000, 16), ("waitn_rep", 800, 16), ("waitn_f3", 600, 16), ("cv", 800, 16), ("muc", 400, 12), ("cancel_only", 800, 16), ("refcount@ps", 1000, 20), ("waitn_rep@ps", 600, 16), ("cv@ps", 600, 16)]},
     "harness_args": ["checkplain=1"],
     "level_text": "Kernel-checked theorems: (mutex, MuQ model) once a thread inside nsync_mu_unlock / runlock / unlock_slow owns neither a share nor the spinlock, no later step of that call touches the mutex, and the step that crosses that point is a successful CAS on the word (C13_release_point, C13_release_is_last_needed): whoever acquires afterwards and frees the memory races with nothing; (cv, CvFix model of the repaired cv.c) every access to a waiter record by a thread other than its owner happens while the record is queued or on that waker's private list with its owner still inside the wait, for pooled records and for nsync_wait_n records alike, and the owner returns only after the record is on no list (C13_record_touch, C13_record_touch_nw_full_true, C13_owner_returns_clean[_waitn]); the V that follows the waker's last store touches no record (C13_late_V_touches_nothing); (nsync_wait_n, WaitN model) every access by a non-owner to a record of notes / counters / cvs is to a registered record, and at the return no record of the call is registered, queued or on a waker's list (C13_record_lifetime, C13_owner_returns_after); (cancellable cv / mu waits, SemWait model of sem_wait.c with the note-side walk of note.c) every access by a notifier to the on-stack record of nsync_sem_wait_with_cancel_ happens under the note's mutex with the record at the head of the note's list or just popped, while the owner is between its enqueue and the return of its final nsync_mu_lock (&note_mu), and the owner returns with the record on no list and no post owed (C13_cancel_record_touch, C13_cancel_owner_returns_clean). Tied to the code by lockstep (refcount / waitn* / cv / muc families through the matching acceptors) and by the runtime's liveness tracking: every atomic AND plain access (TSan instrumentation) of every explored execution is checked against reclaimed heap blocks, reclaimed mutexes and dead stack records (oracles dead-object, dead-stack).",
     "level_note": "The SemWait layer models ONE flat cancel note per record (parents enter through an `inherit` event) and protocol-driven notifiers; the forest is the Note layer's business. Defect F3 (found by this property's oracle) is repaired in /repo; the pre-repair model and refutation are kept (Props/C13Cv.lean). Sampled correspondence.",
